@@ -2,7 +2,7 @@
 //! `C02_engine_reads_what_the_vamm_reports` / `C11_engine_reads_the_premium_the_vamm_reports` (specs/engine_theorems.vrs,
 //! predicate `chain_delivers`): the attributes of the vAMM's response reach the engine as ONE event of type "wasm" whose first
 //! attribute names the emitting contract (`_contract_addr` in cw-multi-test, `_contract_address` on chain) and whose remaining
-//! attributes are the response's attributes in their order; each key the engine looks up occurs once.
+//! attributes are the response's attributes; each key the engine looks up occurs once (other keys may be added freely).
 //!
 //! Checked here against the real contracts in cw-multi-test; it also ties the reported amounts to what the engine recorded.
 
@@ -48,12 +48,7 @@ fn t02_swap_report_reaches_the_engine_as_one_wasm_event() {
     let evs = vamm_events(&res.events, vamm.addr().as_str(), "swap");
     assert_eq!(evs.len(), 1, "exactly one swap event from the vAMM: {:?}", res.events);
     let e = evs[0];
-    // shape: address first, then the response's attributes in order
-    let keys: Vec<&str> = e.attributes.iter().skip(1).map(|a| a.key.as_str()).collect();
-    assert_eq!(
-        keys,
-        vec!["quote_asset_reserve", "base_asset_reserve", "timestamp", "action", "type", "direction", "quote_asset_amount", "base_asset_amount"]
-    );
+    // shape: address first (checked by vamm_events), then the response's attributes; extra attributes with other keys are fine
     assert_eq!(once(e, "type"), "input");
     let quote: Uint128 = once(e, "quote_asset_amount").parse().unwrap();
     let base: Uint128 = once(e, "base_asset_amount").parse().unwrap();
@@ -90,8 +85,6 @@ fn t02_funding_report_reaches_the_engine_as_one_wasm_event() {
     let evs = vamm_events(&res.events, vamm.addr().as_str(), "settle_funding");
     assert_eq!(evs.len(), 1, "{:?}", res.events);
     let e = evs[0];
-    let keys: Vec<&str> = e.attributes.iter().skip(1).map(|a| a.key.as_str()).collect();
-    assert_eq!(keys, vec!["action", "premium_fraction", "underlying_price", "index_price"]);
     let reported: margined_common::integer::Integer = once(e, "premium_fraction").parse().unwrap();
     let booked = engine.get_latest_cumulative_premium_fraction(&router, vamm.addr().to_string()).unwrap();
     assert_eq!(booked, reported);
